@@ -212,6 +212,12 @@ func init() {
 			m.natives["stdin"] = buf[n:]
 			return Tuple{m.mkInt(int64(n)), Iface{}}
 		},
+		"context.WithCancel": func(m *Machine, caller *frame, _ *ssa.Function, a []Value) Value {
+			return m.callZZ(caller, "WithCancel", a)
+		},
+		"context.WithValue": func(m *Machine, caller *frame, _ *ssa.Function, a []Value) Value {
+			return m.callZZ(caller, "WithValue", a)
+		},
 		vpkg + "Symbolic": func(m *Machine, _ *frame, _ *ssa.Function, a []Value) Value { return m.C.True },
 		vpkg + "F64Lt": func(m *Machine, _ *frame, _ *ssa.Function, a []Value) Value { return m.C.FLt(tT(a[0]), tT(a[1])) },
 		vpkg + "F64Eq": func(m *Machine, _ *frame, _ *ssa.Function, a []Value) Value { return m.C.FEq(tT(a[0]), tT(a[1])) },
@@ -1197,4 +1203,13 @@ func strSlice(ss []string) Value {
 		out[i] = Str{S: x}
 	}
 	return Slice{A: out}
+}
+
+// callZZ calls a bridge function of the zzverif package (interpreted).
+func (m *Machine) callZZ(caller *frame, name string, args []Value) Value {
+	zp := m.P.Prog.ImportedPackage("github.com/cube2222/octosql/zzverif")
+	if zp == nil || zp.Func(name) == nil {
+		m.abort("unsupported: zzverif bridge " + name + " missing")
+	}
+	return m.runBody(caller, zp.Func(name), args, nil)
 }
